@@ -323,6 +323,14 @@ def sevenz_ratio(m, variant):
     return sevenz.write_7z(members, method=method, layout="per-file")
 
 
+@family("7z-declared-size", "7z", variants=("lzma-zero", "lzma-one", "lzma-small"), ms=(1, 32, 256))
+def sevenz_declared_size(m, variant):
+    """An LZMA folder whose header declares 0 / 1 / 12 unpacked bytes while its end-marker terminated stream expands to m MiB of zeros."""
+    from vf.gen import sevenz
+    members = [sevenz.Member("small.txt", b"text ZB00001"), sevenz.Member("big.txt", bytes(m * 1024 * 1024))]
+    return sevenz.write_7z(members, method="lzma", layout="per-file", crc=False, declared_sizes={1: {"lzma-zero": 0, "lzma-one": 1, "lzma-small": 12}[variant]})
+
+
 @family("tar-ratio", "tar.gz", variants=("gz", "xz", "bz2"), ms=(1, 32, 256))
 def tar_ratio(m, variant):
     buf = io.BytesIO()
